@@ -1037,6 +1037,8 @@ func genC16(r *world.Rng, w *world.World, big bool) {
 			t = world.TaskSpec{Kind: "cnf", N: n, Clauses: randKSAT(r, n, m, 3, 3), Route: "slicenb"}
 			if r.Bool(0.3) {
 				t.Cert, t.Cap, t.Delays = true, capacity(r), delays(r)
+			} else if r.Bool(0.3) {
+				t.CP = true // cutting-planes strategy on a purely clausal problem (sound there)
 			}
 		case 4: // pigeonhole
 			h := r.Range(3, 5)
